@@ -50,7 +50,7 @@ SAMPLES = {
     "MP4": ["has-tags.m4a", "no-tags.m4a", "alac.m4a", "covr-with-name.m4a", "ep7.m4b", "no-tags.3g2"],
     "ASF": ["silence-1.wma", "silence-2.wma", "silence-3.wma", "issue_29.wma"],
     "Musepack": ["click.mpc", "sv8_header.mpc", "sv5_header.mpc"],
-    "WavPack": ["silence-44-s.wv", "dsd.wv"],
+    "WavPack": ["silence-44-s.wv", "dsd.wv", "no_length.wv"],
     "MonkeysAudio": ["mac-399.ape", "mac-396.ape"],
     "OptimFROG": ["silence-2s-44100-16.ofr", "empty.ofs"],
     "TAK": ["has-tags.tak", "silence-44-s.tak"],
